@@ -4,8 +4,11 @@ package main
 
 import (
 	"fmt"
+	"github.com/makiuchi-d/gozxing/common/reedsolomon"
 	"image"
 	"syscall"
+	"verifharness/ref/gf"
+	"verifharness/ref/rs"
 
 	"github.com/makiuchi-d/gozxing"
 	"github.com/makiuchi-d/gozxing/aztec"
@@ -1520,7 +1523,7 @@ func c06AzECI(r *fw.Rec, lo, hi, step int) {
 // ---------------------------------------------------------------------------
 
 func c06(c *fw.Ctx) {
-	c.Rule("19 reader configurations (QR, Data Matrix, Aztec, QR multi reader through Decode and DecodeMultiple, EAN-13, EAN-8, UPC-A, UPC-E, multi-format UPC/EAN with and without POSSIBLE_FORMATS, Code 39 x {check, extended}, Code 93, Code 128, ITF, Codabar, RSS-14), each on seeded images through BOTH the hybrid and the global-histogram binariser (a quarter of them handed over as packed-RGB or planar-YUV luminance sources, which cannot be rotated): valid symbols of the reader's symbology (library writers, qrref/dmref/azref/onedref, an RSS-14 encoder) unmutated in a scanner-friendly rendering, or mutated at module level (flips, row/column deletion and duplication, crops through finder/guards, pasted noise, truncation, mirroring/inversion, combinations) and rendered with scale 1-4, quiet zone 0-10, arbitrary grey levels incl. low contrast, grey ramps, pixel noise and flips, alpha (NRGBA constant / noisy / symbol carried by alpha), RGBA tints, Gray16, Paletted, sub-images with a non-zero origin, canvases of 39/40/41 pixels and up to 800 pixels, one image in five turned by an arbitrary angle / sheared / scaled by a real factor; every second case keeps one reader instance for all its images; symbols of other symbologies; synthetic images (noise, constant, 1x1..3x3, stripes, checkerboards, finder look-alikes, a few bars and dots - the latter also in bulk under PURE_BARCODE for the 2-D readers); hint maps over all twelve decode hints with well-typed values. Every RowDecoder on rows (random runs of length 1..400, symbol rows clean / with odd margins / mutated / ending mid-symbol, rows ending at every pixel of a symbol's last 14 modules with the row length 0/1/31 modulo 32, every row of length 1..12). The three raw decoders on valid, mutated, arbitrary, tiny and non-square matrices (Aztec: all 36 sizes, matching and non-matching matrix sizes and data-block counts, plus every size x the boundary data-block counts a mode message can announce). The three bit-stream parsers on random bytes/bits, reference-encoded streams cut after every bit (byte for Data Matrix), hostile segment sequences, every alphanumeric text of up to five characters over {A, 1, %} after FNC1 in first / second position, every QR mode nibble x version class, every ECI designator 0..999999 (QR: every byte form; Aztec: FLG(n) digits), every Data Matrix stream of up to two codewords (thorough: three after each latch), every Aztec bit string up to 14 (thorough: 18) bits. Structured-append QR symbol sets (2..4 members built by qrref, byte/alphanumeric/numeric/kanji data, optional ECI, complete and incomplete) side by side through DecodeMultiple and single members through QRCodeReader. Three QR entry points on images tiled with finder patterns of growing side 40..520 with the CPU time of each call measured. Per call: recover(), CPU/heap budget, exactly one of result/error, and for the image-level readers an error of the NotFound/Checksum/Format kinds. distinct = distinct (target, input description, hints)")
+	c.Rule("19 reader configurations (QR, Data Matrix, Aztec, QR multi reader through Decode and DecodeMultiple, EAN-13, EAN-8, UPC-A, UPC-E, multi-format UPC/EAN with and without POSSIBLE_FORMATS, Code 39 x {check, extended}, Code 93, Code 128, ITF, Codabar, RSS-14), each on seeded images through BOTH the hybrid and the global-histogram binariser (a quarter of them handed over as packed-RGB or planar-YUV luminance sources, which cannot be rotated): valid symbols of the reader's symbology (library writers, qrref/dmref/azref/onedref, an RSS-14 encoder) unmutated in a scanner-friendly rendering, or mutated at module level (flips, row/column deletion and duplication, crops through finder/guards, pasted noise, truncation, mirroring/inversion, combinations) and rendered with scale 1-4, quiet zone 0-10, arbitrary grey levels incl. low contrast, grey ramps, pixel noise and flips, alpha (NRGBA constant / noisy / symbol carried by alpha), RGBA tints, Gray16, Paletted, sub-images with a non-zero origin, canvases of 39/40/41 pixels and up to 800 pixels, one image in five turned by an arbitrary angle / sheared / scaled by a real factor; every second case keeps one reader instance for all its images; symbols of other symbologies; synthetic images (noise, constant, 1x1..3x3, stripes, checkerboards, finder look-alikes, a few bars and dots - the latter also in bulk under PURE_BARCODE for the 2-D readers); hint maps over all twelve decode hints with well-typed values. Every RowDecoder on rows (random runs of length 1..400, symbol rows clean / with odd margins / mutated / ending mid-symbol, rows ending at every pixel of a symbol's last 14 modules with the row length 0/1/31 modulo 32, every row of length 1..12). The three raw decoders on valid, mutated, arbitrary, tiny and non-square matrices (Aztec: all 36 sizes, matching and non-matching matrix sizes and data-block counts, plus every size x the boundary data-block counts a mode message can announce). The Reed-Solomon decoder on codewords plus multiples of arbitrary subsets of the generator's factors (chosen syndromes vanish, far beyond the capacity). A valid QR symbol of every (version, level) through the raw decoder. The three bit-stream parsers on random bytes/bits, reference-encoded streams cut after every bit (byte for Data Matrix), hostile segment sequences, every alphanumeric text of up to five characters over {A, 1, %} after FNC1 in first / second position, every QR mode nibble x version class, every ECI designator 0..999999 (QR: every byte form; Aztec: FLG(n) digits), every Data Matrix stream of up to two codewords (thorough: three after each latch), every Aztec bit string up to 14 (thorough: 18) bits. Structured-append QR symbol sets (2..4 members built by qrref, byte/alphanumeric/numeric/kanji data, optional ECI, complete and incomplete) side by side through DecodeMultiple and single members through QRCodeReader. Three QR entry points on images tiled with finder patterns of growing side 40..520 with the CPU time of each call measured. Per call: recover(), CPU/heap budget, exactly one of result/error, and for the image-level readers an error of the NotFound/Checksum/Format kinds. distinct = distinct (target, input description, hints)")
 	c.Assume("hint values have the Go types the readers assert (flag hints: any value incl. nil, as documented; CHARACTER_SET: string or encoding.Encoding; []gozxing.BarcodeFormat; []int; gozxing.ResultPointCallback incl. a nil one); images are at least 1x1, rows at least 1 long; Aztec detector results name 1..32 layers (compact 1..4) and at least one data block")
 	c.Assume("budget: the framework's 20 CPU-s / 1.5 GiB per case; in the tiled-finder-pattern cases one call needing more than 2 CPU-s on an image of at most 520x520 pixels is charged (signature <target>:budget:tiled-finder-patterns) because the following sizes of the escalation exceed the case budget (measured: DecodeMultiple 200x200 = 50 CPU-s)")
 	c.Assume("DESIGN C06 don't-care: DecodeMultiple returning an empty non-nil slice with nil error; raw decoders, row decoders and parsers may return any non-nil error (kind tallied, not charged); results are not checked for content")
@@ -1651,6 +1654,15 @@ func c06(c *fw.Ctx) {
 	c.Floor("images rotated / sheared", 3000)
 	c.Floor("aztec/decoder.Decode inputs of another size than the layer count implies", 300)
 
+	for i := 0; i < c.Pick(60, 1500); i++ {
+		c.Run(fmt.Sprintf("rs-structured/%d", i), func(r *fw.Rec) { c06RSStructured(r) })
+	}
+	c.Floor("reedsolomon.ReedSolomonDecoder.Decode structured words refused", 1000)
+	for v := 1; v <= 40; v++ {
+		v := v
+		c.Run(fmt.Sprintf("qrall/%d", v), func(r *fw.Rec) { c06QRAllConfigs(r, v) })
+	}
+	c.Floor("qr (version, level) pairs through the raw decoder", 150)
 	c.Run("qr-fnc1-percent", func(r *fw.Rec) { c06QRFNC1Percent(r) })
 	c.Floor("qr alphanumeric segments with percent signs after FNC1", 9000)
 	bitCases := c.Pick(200, 6000)
@@ -1731,4 +1743,140 @@ func c06(c *fw.Ctx) {
 	c.Floor("qr streams truncated at every bit", 50)
 	c.Floor("dm streams truncated at every byte", 50)
 	c.Floor("aztec streams truncated at every bit", 50)
+}
+
+// ---------------------------------------------------------------------------
+// Reed-Solomon decoder on structured received words
+// ---------------------------------------------------------------------------
+
+// c06RSStructured: received = codeword + e(x) where e(x) is a multiple of the product of an
+// arbitrary subset of the generator's linear factors (so exactly the syndromes of that subset
+// vanish - the upper half, the lower half, alternating ones, all but one ...), shifted to an
+// arbitrary position; also words of all zeros / all ones / one symbol repeated.  Far beyond the
+// correction capacity: any answer is acceptable except a panic or "neither".
+func c06RSStructured(r *fw.Rec) {
+	rng := r.Rng
+	fields := []struct {
+		ref gf.Field
+		lib *reedsolomon.GenericGF
+	}{
+		{gf.QR256, reedsolomon.GenericGF_QR_CODE_FIELD_256}, {gf.DM256, reedsolomon.GenericGF_DATA_MATRIX_FIELD_256},
+		{gf.Aztec16, reedsolomon.GenericGF_AZTEC_PARAM}, {gf.Aztec64, reedsolomon.GenericGF_AZTEC_DATA_6},
+		{gf.Aztec1024, reedsolomon.GenericGF_AZTEC_DATA_10}, {gf.Aztec4096, reedsolomon.GenericGF_AZTEC_DATA_12},
+	}
+	target := "reedsolomon.ReedSolomonDecoder.Decode"
+	for rep := 0; rep < 60; rep++ {
+		f := fields[rng.Intn(len(fields))]
+		size := f.ref.Size
+		ec := 2 + rng.Intn(minInt(12, size-3))
+		k := 1 + rng.Intn(minInt(20, size-1-ec))
+		n := k + ec
+		data := make([]int, k)
+		for i := range data {
+			data[i] = rng.Intn(size)
+		}
+		word := append(append([]int{}, data...), rs.Parity(f.ref, data, ec)...)
+		desc := ""
+		switch rng.Intn(8) {
+		case 0:
+			for i := range word {
+				word[i] = 0
+			}
+			desc = "all zeros"
+		case 1:
+			v := rng.Intn(size)
+			for i := range word {
+				word[i] = v
+			}
+			desc = fmt.Sprintf("every symbol %d", v)
+		default:
+			// e(x) = prod_{j in S} (x + alpha^(base+j)) * x^shift * c
+			var subset []int
+			mode := rng.Intn(4)
+			for j := 0; j < ec; j++ {
+				in := false
+				switch mode {
+				case 0:
+					in = j >= ec/2 // upper half of the syndromes vanish
+				case 1:
+					in = j < ec/2
+				case 2:
+					in = j%2 == 0
+				default:
+					in = rng.Intn(3) > 0
+				}
+				if in {
+					subset = append(subset, j)
+				}
+			}
+			if len(subset) >= n {
+				subset = subset[:n-1]
+			}
+			e := []int{1 + rng.Intn(size-1)} // coefficients, highest degree first
+			for _, j := range subset {
+				root := f.ref.Pow((f.ref.Base + j) % (size - 1))
+				ne := make([]int, len(e)+1)
+				for i, c := range e {
+					ne[i] ^= c
+					ne[i+1] ^= f.ref.Mul(c, root)
+				}
+				e = ne
+			}
+			shift := rng.Intn(n - len(e) + 1)
+			for i, c := range e {
+				word[n-len(e)-shift+i] ^= c
+			}
+			desc = fmt.Sprintf("codeword + multiple of the generator factors %v shifted by %d", subset, shift)
+		}
+		recv := append([]int{}, word...)
+		var err error
+		msg, stack, panicked := fw.Guard(func() { err = reedsolomon.NewReedSolomonDecoder(f.lib).Decode(recv, ec) })
+		r.Evals(1)
+		if panicked {
+			r.Violation("panic", target+":panic:"+fw.PanicSite(stack), fmt.Sprintf("%s(%s, n=%d, r=%d: %s) panicked: %s", target, f.ref.Name, n, ec, desc, msg), map[string]interface{}{"field": f.ref.Name, "word": word, "r": ec, "construction": desc})
+			return
+		}
+		if err != nil {
+			r.Tally(target + " structured words refused")
+		} else {
+			r.Tally(target + " structured words accepted")
+		}
+		r.NontrivialH(hashInts(word, []int{ec, size}))
+	}
+}
+
+// c06QRAllConfigs: a valid symbol of every (version, level), through the raw decoder.
+func c06QRAllConfigs(r *fw.Rec, v int) {
+	rng := r.Rng
+	for _, l := range qrAllLevels {
+		mode := qrAllModes[rng.Intn(4)]
+		n := qrLenIn(rng, v, l, mode)
+		if n == 0 {
+			continue
+		}
+		_, segs, _ := qrPayload(rng, mode, n)
+		data, ok := qrref.DataCodewordsFor(v, l, segs)
+		if !ok {
+			continue
+		}
+		m := qrref.BuildMatrix(v, l, rng.Intn(8), data)
+		var res interface{}
+		var err error
+		target := "qrcode/decoder.Decode"
+		msg, stack, panicked := fw.Guard(func() {
+			dr, e := qrdec.NewDecoder().Decode(c06BitMatrix(m), nil)
+			err = e
+			if dr != nil {
+				res = dr
+			}
+		})
+		data2 := func() map[string]interface{} {
+			return map[string]interface{}{"version": v, "level": qrLevelName[l], "source": "qrref symbol of every (version, level)"}
+		}
+		if !c06Judge(r, target, fmt.Sprintf("%s(valid %d-%s symbol)", target, v, qrLevelName[l]), res != nil, err, msg, stack, panicked, false, data2) {
+			return
+		}
+		r.Tally("qr (version, level) pairs through the raw decoder")
+	}
+	r.Nontrivial(fmt.Sprintf("qrall/%d", v))
 }
